@@ -50,6 +50,14 @@ claim("C04",
       "Tie: disjoint two-sided histories on the real engine judged by the extracted acceptor.",
       ENGINE_NOTE, ENGINE_TECH, "DESIGN.md §3.2, §6 C04")
 
+claim("C12",
+      "Coq proof (all traces): every engine-issued provider mutation of an accepted trace addresses only paths inside the root of its side, "
+      "and the part of each provider tree outside the root is identical before and after it (C12_engine_confined); translation into/out of "
+      "the roots: C13's translate theorems. Tie: histories mixing objects inside the roots, in other folders, in prefix-sibling folders "
+      "(/local2, /localx), at the account root, file/folder moves across the boundary, roots given by path or by oid, and a translate "
+      "function declining a sub-folder, on the real engine; 'move out = delete, move in = create' is checked as convergence of the views.",
+      ENGINE_NOTE, ENGINE_TECH, "DESIGN.md §3.2, §6 C12")
+
 ALL = ["C%02d" % i for i in range(1, 21)]
 
 
